@@ -6,7 +6,22 @@ CPython's `unicodedata` (Unicode 14.0 here, the crate has 16.0): the reference i
 to characters assigned in 14.0 — by the normalization stability policy their mappings never change."""
 import sys, unicodedata
 import vlib
-from gen_lean import write_if_changed, chunked_list
+from gen_lean import write_if_changed
+
+
+def chunked_list(name, typ, rows, per=100):
+    """like gen_lean.chunked_list, but the chunks are appended right-nested (`c0 ++ (c1 ++ (c2 ++ ...))`):
+    kernel evaluation of a left-nested chain re-walks the prefix once per chunk."""
+    out, parts = [], []
+    for i in range(0, max(len(rows), 1), per):
+        part = f"{name}_{i // per}"
+        parts.append(part)
+        out.append(f"def {part} : List ({typ}) := [{', '.join(rows[i:i + per])}]")
+    expr = parts[-1]
+    for p in reversed(parts[:-1]):
+        expr = f"{p} ++ ({expr})"
+    out.append(f"def {name} : List ({typ}) := {expr}")
+    return "\n".join(out) + "\n"
 
 
 def _ranges(tok):
@@ -97,8 +112,11 @@ def generate(shim):
             ref_comp.append(((a << 32) | b, c))
     ref_comp.sort()
     # rows of the crate's tables whose character is not assigned in the reference's Unicode version
-    new_decomp = [r[0] for r in decomp if not assigned(r[0])]
-    new_comp = [r[1] for r in comp if not assigned(r[1])]
+    new_decomp = [r for r in decomp if not assigned(r[0])]
+    new_comp = [r for r in comp if not assigned(r[1])]
+    # canonical pair mappings that are excluded from composition (Full_Composition_Exclusion, pairs only)
+    ref_excl = sorted(((a << 32) | b, c) for c, a, b in ref_decomp
+                      if b and unicodedata.normalize("NFC", chr(a) + chr(b)) != chr(c))
     # combining classes of the reference, as ranges over assigned characters with ccc ≠ 0
     ccc_rows, cur = [], None
     for c in range(0x110000):
@@ -122,9 +140,11 @@ def generate(shim):
     body += chunked_list("decompTable", "Nat × Nat × Nat", triples(ref_decomp))
     body += "-- primary composites (canonical pair mappings that NFC recomposes, i.e. not composition-excluded): (a <<< 32 ||| b, c)\n"
     body += chunked_list("compTable", "Nat × Nat", pairs(ref_comp))
-    body += "-- characters of the crate's decomposition / composition tables that are unassigned (Cn) in this Unicode version\n"
-    body += chunked_list("newDecomp", "Nat", [str(x) for x in new_decomp])
-    body += chunked_list("newComp", "Nat", [str(x) for x in new_comp])
+    body += "-- canonical pair mappings excluded from composition (Full_Composition_Exclusion): (a <<< 32 ||| b, c)\n"
+    body += chunked_list("exclTable", "Nat × Nat", pairs(ref_excl))
+    body += "-- rows of the crate's decomposition / composition tables whose character is unassigned (Cn) in this Unicode version\n"
+    body += chunked_list("newDecomp", "Nat × Nat × Nat", triples(new_decomp))
+    body += chunked_list("newComp", "Nat × Nat", pairs(new_comp))
     body += "-- Canonical_Combining_Class ≠ 0: (lo, hi, ccc)\n"
     body += chunked_list("cccRanges", "Nat × Nat × Nat", triples(ccc_rows))
     body += "-- ranges of the crate's ccc table that contain a character unassigned in this Unicode version\n"
